@@ -72,6 +72,7 @@ struct HarnessExcRuntime : std::runtime_error, HarnessExc
 // what the harness-only variations did (printed to stderr by the sequential driver; evidence only)
 static thread_local long g_stat_throws[3] = {0, 0, 0};
 static thread_local long g_stat_unwind_emits = 0;
+static thread_local long g_stat_operand_owned = 0;
 [[noreturn]] inline void throw_harness_exc(long salt)
 {
   ++g_stat_throws[salt % 3];
@@ -1338,7 +1339,7 @@ struct Interp
       if (dst->lvl != src->lvl)
         return "badlevel";
       // move assignment may assume that both objects outlive the call (docs/LANGUAGE.md, rule `owned`)
-      if (op == "masgG" && !fl_acc(dst->fl) && (src->owned || (fl_trackable(dst->fl) && dst->owned)))
+      if (op == "masgG" && !fl_acc(dst->fl) && (src->owned || dst->owned))
         return "owned";
       bool cp = (op == "asgG");
       with_sig(*dst, [cp, src](auto& d) {
@@ -1744,6 +1745,25 @@ struct Interp
       auto c = get(C, idx(w[2]));
       if (!k || !c)
         return "dead";
+      // variation without a model counterpart: if the functor of the slot C refers to co-owns a connection object to
+      // that slot (connect-once functor), pass THAT object: when K holds this very slot, the assignment disconnects
+      // it, the functor dies and the argument object with it — the by-value parameter must have been copied before
+      {
+        sigc::connection* own = nullptr;
+        auto it = selfOf.find(idx(w[2]));
+        if (it != selfOf.end())
+        {
+          own = it->second.lock().get();
+          if (!own)
+            selfOf.erase(it);
+        }
+        if (own)
+        {
+          ++g_stat_operand_owned;
+          *k = *own;
+          return "ok";
+        }
+      }
       *k = *c;
       return "ok";
     }
@@ -2113,7 +2133,8 @@ int main(int argc, char** argv)
       std::cout.flush();
     }
     std::cerr << "#harness-stats throws_plain=" << g_stat_throws[0] << " throws_bad_alloc=" << g_stat_throws[1]
-              << " throws_runtime_error=" << g_stat_throws[2] << " emissions_during_unwinding=" << g_stat_unwind_emits << "\n";
+              << " throws_runtime_error=" << g_stat_throws[2] << " emissions_during_unwinding=" << g_stat_unwind_emits
+              << " operands_owned_by_a_functor=" << g_stat_operand_owned << "\n";
     return 0;
   }
   // C19: every program in its own thread, started behind a barrier, disjoint object graphs
